@@ -12,6 +12,24 @@ package redisemu
 
 //@ pred listWF(l *storeList) = l.count >= 0 && (l.count == 0 ==> l.head == nil && l.tail == nil) && (l.count > 0 ==> l.head == l.seq[0] && l.tail == l.seq[l.count-1]) && all(i, 0, l.count, l.seq[i] != nil && asref(l.seq[i]) < alloc() && l.seq[i].idx == i && l.seq[i].owner == l) && all(i, 0, l.count, (i == 0 ==> l.seq[i].prev == nil) && (i > 0 ==> l.seq[i].prev == l.seq[i-1]) && (i == l.count-1 ==> l.seq[i].next == nil) && (i < l.count-1 ==> l.seq[i].next == l.seq[i+1]))
 
+// LMOVE: the ends of the source list when the element is taken
+//@ ghost gSrcHead *listItem
+//@ ghost gSrcTail *listItem
+//@ ghost gSrcCount int
+//@ ghost gDstCount int
+//@ ghost gMoved bool
+
+// nothing outside the list passed in is touched: every other list (and its nodes) is as before
+//@ define listsframe
+//@ ensures [C03] lists.kept: forall l *storeList :: asref(l) < old(alloc()) ==> l.count == old(l.count) && l.head == old(l.head) && l.tail == old(l.tail) && l.seq == old(l.seq)
+//@ ensures [C03] items.kept: forall r *listItem :: asref(r) < old(alloc()) ==> r.idx == old(r.idx) && r.owner == old(r.owner) && r.next == old(r.next) && r.prev == old(r.prev) && r.element == old(r.element)
+//@ end
+
+//@ define otherlists
+//@ ensures [C03] others.kept: forall l *storeList :: asref(l) < old(alloc()) && l != list ==> l.count == old(l.count) && l.head == old(l.head) && l.tail == old(l.tail) && l.seq == old(l.seq)
+//@ ensures [C03] others.items: forall r *listItem :: asref(r) < old(alloc()) && old(r.owner) != list ==> r.idx == old(r.idx) && r.owner == old(r.owner) && r.next == old(r.next) && r.prev == old(r.prev) && r.element == old(r.element)
+//@ end
+
 //@ define listhelper
 //@ prop C08 C16 C03
 //@ guards on
@@ -29,6 +47,7 @@ package redisemu
 //@ func dataStoreCommand.lpushUnlocked
 //@ mode int
 //@ include listhelper
+//@ include otherlists
 //@ ensures [C10] ver.mut: (mutated && !old(mutated)) ==> bumped || removedKey || lookupAbsent
 //@ requires [C03] wf: list != nil && listWF(list)
 //@ requires list.count < (1<<62)
@@ -44,6 +63,7 @@ package redisemu
 //@ func dataStoreCommand.rpushUnlocked
 //@ mode int
 //@ include listhelper
+//@ include otherlists
 //@ ensures [C10] ver.mut: (mutated && !old(mutated)) ==> bumped || removedKey || lookupAbsent
 //@ requires [C03] wf: list != nil && listWF(list)
 //@ requires list.count < (1<<62)
@@ -58,8 +78,11 @@ package redisemu
 //@ func dataStoreCommand.lpopUnlocked
 //@ mode int
 //@ include listhelper
+//@ include otherlists
 //@ ensures [C10] ver.mut: (mutated && !old(mutated)) ==> bumped || removedKey || lookupAbsent
-//@ requires [C03] wf: list != nil && listWF(list) && list.count > 0 && item == list.head
+//@ requires [C03] wf: list != nil && listWF(list) && list.count > 0
+//@ requires [C03] end: item == list.head
+//@ ensures [C03] kept.element: item.element == old(item.element) && item.owner == nil
 //@ ghostafter "list.count--" : bulk listItem.idx r = ite(r.owner == list && r != item, r.idx - 1, r.idx)
 //@ ghostafter "list.count--" : item.owner = nil
 //@ ghostafter "list.count--" : list.seq = seqdel(list.seq, 0)
@@ -71,8 +94,11 @@ package redisemu
 //@ func dataStoreCommand.rpopUnlocked
 //@ mode int
 //@ include listhelper
+//@ include otherlists
 //@ ensures [C10] ver.mut: (mutated && !old(mutated)) ==> bumped || removedKey || lookupAbsent
-//@ requires [C03] wf: list != nil && listWF(list) && list.count > 0 && item == list.tail
+//@ requires [C03] wf: list != nil && listWF(list) && list.count > 0
+//@ requires [C03] end: item == list.tail
+//@ ensures [C03] kept.element: item.element == old(item.element) && item.owner == nil
 //@ ghostafter "list.count--" : item.owner = nil
 //@ ensures [C03] wf: listWF(list)
 //@ ensures [C03] count: list.count == old(list.count) - 1
